@@ -105,6 +105,10 @@ func streamChild(c *Ctx, d time.Duration, prop string, args ...string) bool {
 		}
 	}
 	werr := cmd.Wait()
+	if strings.Contains(stderr.String(), "WARNING: DATA RACE") {
+		// a race report of a child built with the race detector is the check's to judge
+		os.Stderr.WriteString(stderr.String())
+	}
 	if !done {
 		tail := lastLines(stderr.String(), 12)
 		if len(tail) > 3000 {
